@@ -208,6 +208,10 @@ struct Gen<'a> {
     n_validators: u32,
     n_codes: u32,
     n_slots: u32,
+    /// contracts created by the setup prefix (they exist in every state)
+    n_live: u32,
+    /// bias senders and admins towards account 0 (successful admin operations)
+    admin_bias: bool,
     nodes_left: u32,
     uniq: u32,
 }
@@ -236,7 +240,9 @@ impl<'a> Gen<'a> {
 
     fn target_contract(&mut self) -> Target {
         let r = self.rng.below(100);
-        if r < 85 && self.n_slots > 0 {
+        if r < 65 && self.n_live > 0 {
+            Target::Contract(self.rng.below(self.n_live as u64) as u32)
+        } else if r < 85 && self.n_slots > 0 {
             Target::Contract(self.rng.below(self.n_slots as u64) as u32)
         } else if r < 90 {
             Target::SelfAddr
@@ -251,7 +257,9 @@ impl<'a> Gen<'a> {
 
     fn target_any(&mut self) -> Target {
         let r = self.rng.below(100);
-        if r < 40 {
+        if self.admin_bias && r < 30 {
+            Target::Account(0)
+        } else if r < 40 {
             Target::Account(self.rng.below(self.n_accounts as u64) as u32)
         } else if r < 75 && self.n_slots > 0 {
             Target::Contract(self.rng.below(self.n_slots as u64) as u32)
@@ -533,7 +541,7 @@ impl<'a> Gen<'a> {
 
     fn op(&mut self) -> Op {
         let w = [self.p.w_exec, self.p.w_multi, self.p.w_sudo, self.p.w_mint, self.p.w_helper, self.p.w_store, self.p.w_block, self.p.w_external, self.p.w_queries];
-        let sender = self.rng.below(self.n_accounts as u64) as u32;
+        let sender = if self.admin_bias && self.rng.chance(1, 2) { 0 } else { self.rng.below(self.n_accounts as u64) as u32 };
         match self.rng.weighted(&w) {
             0 => {
                 let msg = self.top_msg();
@@ -643,7 +651,8 @@ fn gen_case(rng: &mut Rng, cfg: &Cfg) -> Case {
     }
     let unbonding_secs = *rng.pick(&[1u64, 60, 60, 3600]);
     let nops = 3 + rng.usize(p.ops);
-    let mut g = Gen { rng, p, nid: 0, n_accounts, n_denoms, n_validators, n_codes: 0, n_slots: 0, nodes_left: 0, uniq: 0 };
+    let admin_bias = cfg.property == "C12" || rng.chance(1, 4);
+    let mut g = Gen { rng, p, nid: 0, n_accounts, n_denoms, n_validators, n_codes: 0, n_slots: 0, n_live: 0, admin_bias, nodes_left: 0, uniq: 0 };
     let mut ops = vec![];
     // setup prefix: codes and a few contracts (at least two from the same code)
     let ncodes = 2 + g.rng.below(3);
@@ -671,12 +680,19 @@ fn gen_case(rng: &mut Rng, cfg: &Cfg) -> Case {
         let nid = g.next_nid();
         let node = Node { nid, bind: Some(slot), writes: vec![WriteOp::Set { k: KeySpec::Lit(b"init".to_vec()), v: format!("init{}", slot).into_bytes() }], ..Default::default() };
         let code = if i < 2 { first_code } else { g.rng.below(g.n_codes as u64) as u32 };
-        let admin = match g.rng.below(3) {
+        let admin = match g.rng.below(4) {
             0 => None,
-            _ => Some(Target::Account(g.rng.below(n_accounts as u64) as u32)),
+            1 if i > 0 => Some(Target::Contract(0)),
+            _ => Some(if g.admin_bias { Target::Account(0) } else { Target::Account(g.rng.below(n_accounts as u64) as u32) }),
         };
         let funds = if g.rng.chance(1, 2) { vec![CoinSpec { denom: 0, amt: Amt::Abs(g.rng.range(1, 40)) }] } else { vec![] };
         ops.push(Op::HInstantiate { sender: g.rng.below(n_accounts as u64) as u32, code, slot, node, funds, label: format!("c{}", slot), admin, salt: None });
+        g.n_live += 1;
+        // most contracts get working capital, so that funds attached by contracts do not always overdraw
+        if g.rng.chance(3, 4) {
+            let coins = (0..n_denoms).map(|d| CoinSpec { denom: d, amt: Amt::Abs(g.rng.range(50, 2000)) }).collect();
+            ops.push(Op::Mint { to: Target::Contract(slot), coins });
+        }
     }
     for _ in 0..nops {
         let op = g.op();
